@@ -56,6 +56,9 @@ def mk_sources():
     S["RepairedMesh"] = magpy.magnet.TriangularMesh(vertices=cv, faces=badf, polarization=pol, reorient_faces="skip", **kw)
     S["RepairedMesh"].getB((0.1, 0.2, 0.3))
     S["RepairedMesh"].reorient_faces(mode="ignore")
+    # a current loop tilting along its path: the test loop links the wire at the first step only
+    S["TiltingCircle"] = magpy.current.Circle(diameter=1.3, current=2.5, **kw)
+    S["TiltingCircle"].rotate_from_angax([30, 60, 90], (0, 1, 0), anchor=None)
     # section angles beyond 360 deg that straddle it after normalisation
     S["SegmentBeyond360"] = magpy.magnet.CylinderSegment(dimension=(0.3, 0.9, 1.1, 300, 420), polarization=pol, **kw)
     a = magpy.magnet.Cuboid(dimension=(0.5, 0.4, 0.3), polarization=pol, position=(0.8, 0.1, -0.2))
@@ -76,7 +79,7 @@ GLOBAL_FRAME = ("Collection", "TwoSquares", "TwoMeshes")
 
 SIZE = {"Cuboid": 0.6, "Cylinder": 0.6, "CylinderSegment": 0.9, "Sphere": 0.55, "Tetrahedron": 0.9, "TriangularMesh": 0.6, "Dipole": 0.5,
         "Circle": 0.65, "PolySquare": 0.7, "PolyHexagon": 0.6, "Collection": 1.0, "TwoSquares": 0.7, "TwoMeshes": 1.0,
-        "TallMesh": 0.5, "WideMesh": 0.5, "TwoPartMesh": 0.6, "SegmentBeyond360": 0.9, "TurningCuboid": 0.6, "RepairedMesh": 0.6}
+        "TallMesh": 0.5, "WideMesh": 0.5, "TwoPartMesh": 0.6, "SegmentBeyond360": 0.9, "TurningCuboid": 0.6, "RepairedMesh": 0.6, "TiltingCircle": 0.65}
 
 
 def to_global(p):
@@ -250,9 +253,13 @@ def loop_points(c, S):
 
     local_to_global = lambda p: to_global(p)  # noqa: E731
     Rm = R.from_rotvec(POSE[1])
-    I = {"Circle": 2.5, "PolySquare": 1.5, "PolyHexagon": -3.0}.get(c["src"], 0.0)
+    I = {"Circle": 2.5, "PolySquare": 1.5, "PolyHexagon": -3.0, "TiltingCircle": 2.5}.get(c["src"], 0.0)
     if kind == "link1" or kind == "link2":
         # circle around one point of the wire, in the plane perpendicular to the wire there
+        if c["src"] == "TiltingCircle":   # tilts about its local y axis: the wire leaves the test loop after the first step
+            turns = 1 if kind == "link1" else 2
+            pcs = circle(local_to_global(np.array((0.65, 0, 0))), Rm.apply(np.array((0, 1.0, 0))), c["radius"] * size, turns=turns)
+            return pcs, np.array([I * turns, 0.0, 0.0, 0.0])
         if c["src"] == "Circle":
             p, tang = np.array((0.65, 0, 0)), np.array((0, 1.0, 0))
         elif c["src"] == "PolySquare":
@@ -304,6 +311,8 @@ def circ_case(c):
     worst = int(np.argmax(np.abs(vals[-1] - expected)))
     step_conv = float(np.max(np.abs(vals[-1] - vals[-2])))
     vals = [float(v[worst]) for v in vals]
+    if np.ndim(expected):
+        expected = float(expected[worst])
     circ = vals[-1]
     conv = max(abs(vals[-1] - vals[-2]), step_conv)
     floor = FLOOR.get(c["src"], 1e-9)
@@ -354,11 +363,11 @@ def enumerate_cases(tier):
                         cuts = size <= 3.0
                     else:
                         cuts = False
-                    if src in ("Dipole", "Circle", "PolySquare", "PolyHexagon", "Collection", "TwoSquares") and cname != "outside" and size < 3.0:
+                    if src in ("Dipole", "Circle", "PolySquare", "PolyHexagon", "Collection", "TwoSquares", "TiltingCircle") and cname != "outside" and size < 3.0:
                         continue  # would pass next to the dipole position / a wire
                     if src == "Collection" and cname != "outside" and size == 3.0:
                         cuts = False
-                    if src in ("Dipole", "Circle", "PolySquare", "PolyHexagon", "TwoSquares"):
+                    if src in ("Dipole", "Circle", "PolySquare", "PolyHexagon", "TwoSquares", "TiltingCircle"):
                         cuts = False
                     if src == "TwoMeshes":
                         cuts = cname != "outside"
@@ -371,9 +380,9 @@ def enumerate_cases(tier):
                                   "panels": [4, 8] if not cuts else ([8, 16] if tier == "quick" else [12, 24])})
     for src in SIZE:
         loops = ["nolink", "pentagon"]
-        if src in ("Circle", "PolySquare", "PolyHexagon", "Collection", "TwoSquares"):
+        if src in ("Circle", "PolySquare", "PolyHexagon", "Collection", "TwoSquares", "TiltingCircle"):
             loops += ["link1", "link2"]
-        if src not in ("Dipole", "Circle", "PolySquare", "PolyHexagon", "Collection", "TwoSquares", "TwoMeshes", "TurningCuboid"):
+        if src not in ("Dipole", "Circle", "PolySquare", "PolyHexagon", "Collection", "TwoSquares", "TwoMeshes", "TurningCuboid", "TiltingCircle"):
             loops += ["through", "inside"]
         for lp in loops:
             for radius in ([0.05, 0.2] if lp in ("link1", "link2", "inside") else [0.3, 0.8] if lp == "through" else [0.7]):
